@@ -73,14 +73,14 @@ PROPS["C12"] = {
 }
 
 C17_Q = ["Harness_C17_list_1", "Harness_C17_list_2", "Harness_C17_create_0", "Harness_C17_create_1", "Harness_C17_revoke_1", "Harness_C17_revoke_2",
-         "Harness_C17_pages_owner_2", "Harness_C17_pages_owner_3", "Harness_C17_pages_all_2"]
+         "Harness_C17_pages_owner_2", "Harness_C17_pages_owner_3", "Harness_C17_pages_all_2", "Harness_C17_create_1_wide", "Harness_C17_revoke_1_wide"]
 PROPS["C17"] = {
     "jobs": [{
         "pkg": "x/cert/keeper",
         "files": ["harness/C17/certs.go", "harness/C17/query.go"],
         "shims": ["shim.go.tmpl", "shim_chain.go.tmpl", "shim_cert.go.tmpl"],
         "quick": C17_Q,
-        "thorough": C17_Q + ["Harness_C17_pages_owner_3b", "Harness_C17_pages_all_3", "Harness_C17_list_3", "Harness_C17_create_2", "Harness_C17_list_1_wide", "Harness_C17_list_2_wide", "Harness_C17_create_1_wide", "Harness_C17_revoke_1_wide"],
+        "thorough": C17_Q + ["Harness_C17_pages_owner_3b", "Harness_C17_pages_all_3", "Harness_C17_list_3", "Harness_C17_create_2", "Harness_C17_list_1_wide", "Harness_C17_list_2_wide"],
         "opts": {"timeout": 20000, "maxbigbytes": 9},
     }],
     "bounds": {
@@ -299,12 +299,12 @@ PROPS["C20"] = {
     "assumptions": ["a second send on a full capacity-1 reply channel blocks the manager forever (counted as a hang)"],
 }
 
-C11_Q = ["Harness_C11_namespace", "Harness_C11_container", "Harness_C11_netpol", "Harness_C11_netpol_2", "Harness_C11_netpol_off", "Harness_C11_objects"]
+C11_Q = ["Harness_C11_namespace", "Harness_C11_container", "Harness_C11_netpol", "Harness_C11_netpol_2", "Harness_C11_netpol_applied", "Harness_C11_netpol_off", "Harness_C11_objects"]
 PROPS["C11"] = {
-    "jobs": [{"pkg": "provider/cluster/kube", "files": ["harness/C11/builders.go"], "quick": C11_Q, "thorough": C11_Q,
+    "jobs": [{"pkg": "provider/cluster/kube", "files": ["harness/C11/builders.go", "harness/C11/clientset.go"], "quick": C11_Q, "thorough": C11_Q,
               "opts": {"timeout": 30000, "witness": 4},
-              "reach": {"Harness_C11_namespace": ["namespace"], "Harness_C11_container": ["container"], "Harness_C11_netpol": ["netpol"]}},
-             {"pkg": "provider/cluster/kube", "files": ["harness/C11/builders.go"], "quick": ["Harness_C11_commit"], "thorough": ["Harness_C11_commit"],
+              "reach": {"Harness_C11_namespace": ["namespace"], "Harness_C11_container": ["container"], "Harness_C11_netpol": ["netpol"], "Harness_C11_netpol_applied": ["applied-twice", "netpol"]}},
+             {"pkg": "provider/cluster/kube", "files": ["harness/C11/builders.go", "harness/C11/clientset.go"], "quick": ["Harness_C11_commit"], "thorough": ["Harness_C11_commit"],
               "opts": {"timeout": 60000, "witness": 2, "inctimeout": 0}, "reach": {"Harness_C11_commit": ["commit"]}}],
     "bounds": {"quick": "lidNS on an arbitrary 28-byte digest (arbitrary owner address; SHA-224 uninterpreted); deploymentBuilder.create/update/container with symbolic cpu/memory/storage in [1,2^44] (bit-vectors) at commit levels 0/0.5/1, 3 runtime classes; the float64 commit-level kernel ComputeCommittedResources for every value in [1,2^44] at the factors {0,0.5,1,1.5,2,3,10,1024} (a fully symbolic factor times out on all three solvers); netPolBuilder.create with one and with two services, one symbolic expose each, the attacked pod belonging to either service, evaluated by a policy evaluator in the harness for an arbitrary peer (same namespace / ingress namespace / ingress pod flags), destination port and protocol, and an arbitrary IPv4 egress address (bit-vector) and port; nsBuilder and serviceBuilder objects",
                "thorough": "same harnesses with a 240 s solver budget"},
